@@ -90,6 +90,18 @@ class ToyField:
         return tm.eq(a, b, W)
 
 
+def leaf_value(node):
+    """value of a toy-field element leaf of an object tree: abstract (Abs) or left as explicit limbs by code below the method level"""
+    if isinstance(node, X.Abs):
+        return node.v
+    limbs = list(node[1])
+    l0 = limbs[0]
+    if any(isinstance(x, tm.T) or x != 0 for x in limbs[1:]) or (isinstance(l0, tm.T) and l0.ub >= (1 << W)) or \
+            (not isinstance(l0, tm.T) and l0 >= (1 << W)):
+        raise X.AbstractionBreach("toy field element with limbs outside 16 bits: %r" % (limbs,))
+    return tm.extract(l0, W - 1, 0) if isinstance(l0, tm.T) else l0
+
+
 def install(m, alg, consts=None):
     """make field.Element abstract over algebra `alg`.  consts: overrides for package-level Elements
     {global name: python int} (interpreted in the algebra)."""
@@ -103,8 +115,22 @@ def install(m, alg, consts=None):
         v = m.load(ptr)
         if isinstance(v, X.Abs):
             return v.v
+        limbs = list(v[1])
+        if toy and any(isinstance(x, tm.T) for x in limbs):
+            # an element that code below the method level (a new method written directly over the fiat kernels, a raw copy of
+            # limbs) left as explicit limbs: its value is limb 0; limbs must stay canonical (< q), which is the toy image of the
+            # kernels' documented range invariant
+            l0 = limbs[0]
+            hi_zero = all((not isinstance(x, tm.T)) and x == 0 for x in limbs[1:])
+            if not (hi_zero and isinstance(l0, tm.T) and l0.ub < (1 << W)):
+                m.ctx.check(tm.band_all([tm.eq(x, 0, 64) for x in limbs[1:]] + [tm.ult(tm.lift(l0, 64), alg.q, 64)]),
+                            'bv:field-element-limbs-stay-canonical')
+            val = tm.extract(l0, W - 1, 0) if isinstance(l0, tm.T) else l0 & ((1 << W) - 1)
+            if isinstance(val, tm.T) and val.ub >= alg.q:
+                m.ctx.check(tm.ult(val, alg.q, W), 'bv:field-element-limbs-stay-canonical')
+            return val
         # concrete element from the globals dump: [[], [4 limbs]] holding the plain value (R = 1 model)
-        val = sum(int(x) << (64 * i) for i, x in enumerate(v[1]))
+        val = sum(int(x) << (64 * i) for i, x in enumerate(limbs))
         return alg.const(val)
 
     def put(ptr, v):
@@ -147,6 +173,27 @@ def install(m, alg, consts=None):
         def merge(c, a, b):
             return mk(tm.ite(c, a.v, b.v, W))
         m.abs_merge = merge
+        # code that reaches below the method level (e.g. a new Element method written over the fiat kernels) runs on the limb image
+        # [v,0,0,0] of the abstract value (R = 1 model), with the fiat kernels interpreted mod q
+        m.abs_materialize = dict(m.abs_materialize or {})
+        m.abs_materialize['fe'] = lambda node: [[], [tm.zext(node.v, 64) if isinstance(node.v, tm.T) else node.v, 0, 0, 0]]
+        FIAT = MOD + '/internal/fiat/secp256k1montgomery.'
+
+        def kld(ptr):
+            limbs = list(m.load(ptr))
+            l0 = limbs[0]
+            return tm.extract(l0, W - 1, 0) if isinstance(l0, tm.T) else l0 & ((1 << W) - 1)
+
+        def kst(ptr, v):
+            m.store(ptr, [tm.zext(v, 64) if isinstance(v, tm.T) else v, 0, 0, 0])
+        C[FIAT + 'Add'] = lambda m, a: kst(a[0], alg.add(kld(a[1]), kld(a[2])))
+        C[FIAT + 'Sub'] = lambda m, a: kst(a[0], alg.sub(kld(a[1]), kld(a[2])))
+        C[FIAT + 'Opp'] = lambda m, a: kst(a[0], alg.neg(kld(a[1])))
+        C[FIAT + 'Mul'] = lambda m, a: kst(a[0], alg.mul(kld(a[1]), kld(a[2])))
+        C[FIAT + 'Square'] = lambda m, a: kst(a[0], (lambda v: alg.mul(v, v))(kld(a[1])))
+        C[FIAT + 'ToMontgomery'] = lambda m, a: kst(a[0], kld(a[1]))
+        C[FIAT + 'FromMontgomery'] = lambda m, a: kst(a[0], kld(a[1]))
+        C[FIAT + 'SetOne'] = lambda m, a: kst(a[0], 1)
         C[FE + 'ConditionalSelect'] = lambda m, a: put(a[0], tm.ite(tm.eq(a[3], 0, 64), get(a[1]), get(a[2]), W))
         C[FE + 'ConditionalNegate'] = lambda m, a: put(a[0], (lambda v: tm.ite(tm.eq(a[2], 0, 64), v, alg.neg(v), W))(get(a[1])))
         C[FE + 'Equal'] = lambda m, a: tm.ite(tm.eq(get(a[0]), get(a[1]), W), 1, 0, 64)
